@@ -105,6 +105,101 @@ def judge_points(chk, obs):
     return r.emits('VERDICT')[0]['clause']
 
 
+def positions_only(chk, beh, kind, seed):
+    """one behaviour on one cheap attack: only WHERE the columns are taken (judged by the property through AnalysisTrace in the final TLC run),
+    their number, and the last column; the per-column comparison with a fresh attack is done on the sampled behaviours"""
+    import scared
+    a, mk = pl.build(kind, 'attack', 'float64', convergence_step=int(beh['step']))
+    rec = pl.Recorder(a)
+    colpos = []
+    cc0 = a._compute_convergence_traces
+
+    def cc():
+        r = cc0()
+        colpos.append(int(a.processed_traces))
+        return r
+    a._compute_convergence_traces = cc
+    rs = np.random.RandomState(seed)
+    scared.set_batch_size(int(beh['base']))
+    id0 = 0
+    for n in beh['ns']:
+        ths, samples, v, ids = pl.make_set(rs, n, 6, 2, id0)
+        id0 += n
+        a.run(scared.Container(ths))
+    OBS.append(({'step': int(beh['step']), 'ends': [int(x) for x in np.cumsum(beh['ns'])], 'bounds': [int(x) for x in np.cumsum([len(ids) for ids, _, _ in rec.batches])],
+                 'computes': list(rec.computes), 'cols': list(colpos)}, kind, beh))
+    if colpos != [c['at'] for c in beh['cols']] or rec.computes != beh['computes']:
+        chk.drift += 1
+    ncol = 0 if a.convergence_traces is None else a.convergence_traces.shape[-1]
+    if ncol != len(colpos):
+        return 'one convergence column per convergence point'
+    if colpos and not np.array_equal(np.asarray(a.convergence_traces[..., -1]), np.asarray(a.scores), equal_nan=True):
+        return 'the last column equals the final scores'
+    return None
+
+
+def template_convergence(chk, rng, n):
+    """the template attacks with a convergence step: every column against a fresh attack (same profile) run on exactly that prefix"""
+    import scared
+
+    @scared.reverse_selection_function
+    def rsf(v):
+        return v
+
+    @scared.attack_selection_function(guesses=range(3), words=0)
+    def asf(h, guesses):
+        return (h[:, :, None] + np.arange(3)[None, None, :]).swapaxes(1, 2)[:, :, :1] % 3
+    for k in range(n):
+        rs = np.random.RandomState(chk.seed % 1000 + 31 * k)
+        nb_, nm = 12 + int(rs.randint(0, 6)), 7 + int(rs.randint(0, 8))
+        tb = rs.randint(0, 12, (nb_, 2)).astype('int16')
+        vb = (np.arange(nb_) % 3).astype('uint8').reshape(-1, 1)
+        tm = rs.randint(0, 12, (nm, 2)).astype('int16')
+        hm = rs.randint(0, 3, (nm, 1)).astype('uint8')
+        bs, step = int(rs.randint(1, 4)), int(rs.randint(2, 6))
+        scared.set_batch_size(bs)
+        which = 'dpa' if k % 2 else 'static'
+
+        def make(cstep):
+            cb = scared.Container(scared.traces.read_ths_from_ram(samples=tb, v=vb))
+            if which == 'static':
+                a_ = scared.TemplateAttack(container_building=cb, reverse_selection_function=rsf, model=scared.Value(), partitions=np.arange(3), precision='float64', convergence_step=cstep)
+            else:
+                a_ = scared.TemplateDPAAttack(container_building=cb, reverse_selection_function=rsf, selection_function=asf, model=scared.Value(), partitions=np.arange(3), precision='float64', convergence_step=cstep)
+            a_.build()
+            return a_
+        a = make(step)
+        colpos = []
+        cc0 = a._compute_convergence_traces
+
+        def cc():
+            r = cc0()
+            colpos.append(int(a.processed_traces))
+            return r
+        a._compute_convergence_traces = cc
+        a.run(scared.Container(scared.traces.read_ths_from_ram(samples=tm, h=hm)))
+        chk.count(('tpl-conv', which, k), nontrivial=len(colpos) >= 2)
+        chk.traces_validated += 1
+        ctx = {'property': 'C08', 'part': 'template', 'which': which, 'batch_size': bs, 'step': step, 'matching_traces': nm, 'positions': colpos}
+        bad = None
+        ncol = 0 if a.convergence_traces is None else a.convergence_traces.shape[-1]
+        if ncol != len(colpos) or not colpos or colpos[-1] != nm or any(y <= x for x, y in zip(colpos, colpos[1:])):
+            bad = 'convergence points are strictly increasing and end at the total'
+        else:
+            for i, at in enumerate(colpos):
+                f = make(None)
+                f.run(scared.Container(scared.traces.read_ths_from_ram(samples=tm[:at], h=hm[:at])))
+                col = np.asarray(a.convergence_traces[..., i], dtype='float64')
+                if col.shape != np.asarray(f.scores).shape or not np.allclose(col, np.asarray(f.scores, dtype='float64'), rtol=1e-9, atol=1e-9, equal_nan=True):
+                    bad = 'each column equals the scores of a fresh attack on exactly the traces processed up to that point'
+                    ctx = dict(ctx, column=i, at=at, got=col.tolist(), fresh=np.asarray(f.scores).tolist())
+                    break
+            if not bad and not np.allclose(np.asarray(a.scores, dtype='float64'), np.asarray(f.scores, dtype='float64'), rtol=1e-9, atol=1e-9, equal_nan=True):
+                bad = 'requesting convergence traces never changes the final results or scores'
+        if bad:
+            chk.violation(f'Template{which}:{bad}', dict(ctx, clause=bad), f'template {which} attack, batch {bs}, step {step}, {nm} matching traces: {bad}')
+
+
 def run(chk):
     memoise_lut()
     import numba
@@ -143,6 +238,21 @@ def run(chk):
                                   f'{kind} ns={beh["ns"]} base={beh["base"]} step={beh["step"]}: {bad}')
                 if len(chk.samples) < 3 and len(beh['cols']) >= 3:
                     chk.sample({'ns': beh['ns'], 'batch_size': beh['base'], 'step': beh['step'], 'effective_batch': beh['bs'], 'points': beh['cols']})
+        # every generated behaviour (not a sample) on a cheap attack: where the columns are taken, judged by the property below
+        allb = [b for b in behs if b['step'] > 0]
+        seenb = set()
+        for bi, beh in enumerate(allb):
+            key = json.dumps(beh, sort_keys=True)
+            if key in seenb or (q and len(beh['ns']) > 1 and bi % 2):
+                continue
+            seenb.add(key)
+            kind = ('CPA', 'DPA')[bi % 2]
+            bad = positions_only(chk, beh, kind, chk.seed + bi)
+            chk.count(('pos', kind, key), nontrivial=len(beh['cols']) >= 2 or len(beh['ns']) >= 2)
+            chk.traces_validated += 1
+            if bad:
+                chk.violation(f'{kind}:{bad}', {'property': 'C08', 'behaviour': beh, 'kind': kind, 'precision': 'float64', 'seed': chk.seed + bi, 'clause': bad}, f'{kind} ns={beh["ns"]} base={beh["base"]} step={beh["step"]}: {bad}')
+        template_convergence(chk, rng, 8 if q else 40)
         from .. import apirules
         apirules.run(chk, 'convergence_step', 'C08')
         # (V) every observed execution, judged by the property alone in one TLC run
